@@ -50,12 +50,25 @@ type c40bArena struct {
 	index uint64
 	next  int
 	calls int // ProposeResult calls (reset per event by the instance)
+
+	env      *mc.Env // environment of the event being applied (nil outside Apply)
+	injected int     // proposals failed by the environment during the current event
 }
+
+// c40bErrProposal is what a caller sees when the slot proposal does not commit (propose
+// timeout, leader hiccup, caller deadline): an error, and nothing was applied.
+var c40bErrProposal = fmt.Errorf("c40b: injected proposal failure: %w", context.DeadlineExceeded)
 
 // ProposeResult applies one proposed command to the real slot state machine (one command per
 // ApplyBatch), as the slot Raft group would after commit.
 func (a *c40bArena) ProposeResult(ctx context.Context, req propose.Request) ([]byte, error) {
 	a.calls++
+	// ENVIRONMENT DEVIATION: this durable proposal fails before it commits; nothing is applied
+	// to the slot state machine and the caller gets an error.
+	if a.env != nil && a.env.Choose("durable proposal fails before commit", 2) == 1 {
+		a.injected++
+		return nil, c40bErrProposal
+	}
 	a.index++
 	res, err := a.sm.ApplyBatch(ctx, []multiraft.Command{{SlotID: 1, HashSlot: routing.HashSlotForKey(req.Key, 2), Index: a.index, Term: 1, Data: req.Command}})
 	if err != nil {
@@ -138,6 +151,8 @@ type c40bStats struct {
 	losses, lossesWithOpenContent, pressureRefused, pressureEvictedTerminal, finishAfterPartialLoss      atomic.Int64
 	lossByReassignment, lossByLeaderOfNewSlot, localToLocal, authorityReturned                           atomic.Int64
 	closeAfterLoss, mergedClose, flushedLanes, appendAfterTerminal, ownRefused                           atomic.Int64
+	terminalProposalFailed, terminalProposalFailedTwoLanesCached, finishProposalFailed                   atomic.Int64
+	finishProposalFailedTwoLanesCached, cancelDurable                                                    atomic.Int64
 }
 
 type c40bRow struct {
@@ -197,6 +212,11 @@ func c40bSnapshot(revision uint64, hs uint16, onSlot2 bool) control.Snapshot {
 
 const c40bMaxSessions = 2
 
+// c40bBehaviourOnly (diagnostic, VERIF_C40_BEHAVIOUR_ONLY=1, never set by ./check): switch off the
+// white-box comparisons of the cache content after a failed proposal, so that a mutant is judged
+// only by what later events return and store (used once to validate the finish/delta oracles).
+var c40bBehaviourOnly = os.Getenv("VERIF_C40_BEHAVIOUR_ONLY") == "1"
+
 func c40bNew(r *ev.R, st *c40bStats) mc.Instance {
 	a, n := c40bAlloc()
 	in := &c40bInst{r: r, st: st, a: a, channel: fmt.Sprintf("g%d", n), term: 9,
@@ -246,7 +266,7 @@ func (in *c40bInst) Events() []string {
 			evs = append(evs, "redelta:"+l)
 		}
 	}
-	evs = append(evs, "close:main", "close:"+c40bLaneB, "error:main", "finish", "reset", "restore")
+	evs = append(evs, "close:main", "close:"+c40bLaneB, "error:main", "cancel:"+c40bLaneB, "finish", "reset", "restore")
 	if !in.onSlot2 {
 		evs = append(evs, "lose-leadership") // of slot 1, which owns the stream's hash slot
 	}
@@ -347,18 +367,19 @@ func (in *c40bInst) loseCache(how string) {
 	in.others = 0
 }
 
-func (in *c40bInst) Apply(label string, _ *mc.Env) (string, error) {
+func (in *c40bInst) Apply(label string, env *mc.Env) (string, error) {
 	p := strings.SplitN(label, ":", 2)
 	op, lane := p[0], ""
 	if len(p) == 2 {
 		lane = p[1]
 	}
 	before := in.rows
-	in.a.calls = 0
+	in.a.calls, in.a.injected, in.a.env = 0, 0, env
+	defer func() { in.a.env = nil }()
 	switch op {
 	case "open", "delta", "snapshot", "redelta":
 		return in.evCached(op, lane, before)
-	case "close", "error":
+	case "close", "error", "cancel":
 		return in.evTerminal(op, lane, before)
 	case "finish":
 		return in.evFinish(before)
@@ -507,6 +528,9 @@ func (in *c40bInst) evCached(op, lane string, before map[string]c40bRow) (string
 	// event is still cached; after a loss it opens the lane again (the durable reducer will
 	// refuse the flush later). The model follows the cache here.
 	termInCache := strings.HasPrefix(in.cacheView()[lane], "#")
+	if termInCache && !l.Terminal {
+		return op, mc.Violatef("C40:cached-lane-terminal-without-durable-terminal-event", "%s:%s (id %s) was answered %q and swallowed: the cache holds the lane as %s although no terminal event of that lane was ever applied durably (durable lanes %s); acknowledged cached text %q", op, lane, req.EventID, res.Status, in.cacheView()[lane], c40bRowsStr(before), l.Acked)
+	}
 	if termInCache {
 		in.st.appendAfterTerminal.Add(1)
 		return fmt.Sprintf("%s:%s ignored (lane terminal in cache) -> %s", op, lane, res.Status), nil
@@ -544,10 +568,36 @@ func (in *c40bInst) evCached(op, lane string, before map[string]c40bRow) (string
 func (in *c40bInst) evTerminal(op, lane string, before map[string]c40bRow) (string, error) {
 	l := in.lanes[lane]
 	typ, payload := metadb.EventTypeStreamClose, `{"end_reason":2}`
-	if op == "error" {
+	switch op {
+	case "error":
 		typ, payload = metadb.EventTypeStreamError, `{"error":"boom"}`
+	case "cancel":
+		typ, payload = metadb.EventTypeStreamCancel, ``
 	}
+	cvBefore := in.cacheView()
 	res, err := in.node.AppendMessageEvent(c40bCtx, in.request(typ, lane, in.freshID(), payload))
+	if in.a.injected > 0 {
+		// the durable proposal of this terminal event failed: the caller must see the error and
+		// NOTHING a later finish / delta / read can observe may have changed
+		if err == nil {
+			return op, mc.Violatef("C40:terminal-event-acknowledged-although-proposal-failed", "%s:%s returned success (%s seq=%d) although its durable proposal failed", op, lane, res.Status, res.MsgEventSeq)
+		}
+		if !errors.Is(err, c40bErrProposal) {
+			in.fail("%s:%s: proposal failure surfaced as %v", op, lane, err)
+			return "error", nil
+		}
+		if after := in.readRows(); !c40bRowsEq(before, after) {
+			return op, mc.Violatef("C40:failed-terminal-append-wrote-projection", "%s:%s failed (%v) but the durable projection changed from %s to %s", op, lane, err, c40bRowsStr(before), c40bRowsStr(after))
+		}
+		if cvAfter := in.cacheView(); !c40bBehaviourOnly && fmt.Sprint(cvBefore) != fmt.Sprint(cvAfter) {
+			return op, mc.Violatef("C40:failed-terminal-append-changed-cache", "%s:%s failed (%v, nothing durable) but the cached lanes of the message changed from %v to %v; acknowledged cached text of the lane %q", op, lane, err, cvBefore, cvAfter, l.Acked)
+		}
+		in.st.terminalProposalFailed.Add(1)
+		if in.lanesWithCachedText() >= 2 && l.Cached && l.Acked != "" {
+			in.st.terminalProposalFailedTwoLanesCached.Add(1)
+		}
+		return fmt.Sprintf("%s:%s proposal failed, nothing changed", op, lane), nil
+	}
 	if err != nil {
 		in.fail("%s:%s: %v", op, lane, err)
 		return "error", nil
@@ -577,7 +627,21 @@ func (in *c40bInst) evTerminal(op, lane string, before map[string]c40bRow) (stri
 	}
 	l.Terminal, l.Cached, l.CText, l.HasAcked, l.LastID = true, false, "", false, ""
 	in.st.terminalDurable.Add(1)
+	if op == "cancel" {
+		in.st.cancelDurable.Add(1)
+	}
 	return fmt.Sprintf("%s:%s durable %s seq=%d text=%q", op, lane, row.Status, row.Seq, row.Text), nil
+}
+
+// lanesWithCachedText counts the lanes that hold acknowledged, not yet durable text in the cache.
+func (in *c40bInst) lanesWithCachedText() int {
+	n := 0
+	for _, l := range in.lanes {
+		if l.Cached && !l.Terminal && l.CText != "" {
+			n++
+		}
+	}
+	return n
 }
 
 func c40bMaxSeq(rows map[string]c40bRow) uint64 {
@@ -617,9 +681,26 @@ func (in *c40bInst) evFinish(before map[string]c40bRow) (string, error) {
 	res, err := in.node.AppendMessageEvent(c40bCtx, in.request(metadb.EventTypeStreamFinish, "", in.freshID(), `{"end_reason":3}`))
 	after := in.readRows()
 	in.rows = after
+	if in.a.injected > 0 && err == nil {
+		return "finish", mc.Violatef("C40:finish-acknowledged-although-proposal-failed", "finish returned success (%s seq=%d) although its durable proposal failed; projection %s", res.Status, res.MsgEventSeq, c40bRowsStr(after))
+	}
 	if err != nil {
 		if !c40bRowsEq(before, after) {
 			return "finish", mc.Violatef("C40:failed-finish-wrote-projection", "finish failed (%v) but the durable projection changed from %s to %s", err, c40bRowsStr(before), c40bRowsStr(after))
+		}
+		if in.a.injected > 0 {
+			if !errors.Is(err, c40bErrProposal) {
+				in.fail("finish: proposal failure surfaced as %v", err)
+				return "error", nil
+			}
+			if cvAfter := in.cacheView(); !c40bBehaviourOnly && fmt.Sprint(cv) != fmt.Sprint(cvAfter) {
+				return "finish", mc.Violatef("C40:failed-finish-changed-cache", "finish failed (%v, nothing durable) but the cached lanes of the message changed from %v to %v", err, cv, cvAfter)
+			}
+			in.st.finishProposalFailed.Add(1)
+			if in.lanesWithCachedText() >= 2 {
+				in.st.finishProposalFailedTwoLanesCached.Add(1)
+			}
+			return "finish proposal failed, nothing changed", nil
 		}
 		if !errors.Is(err, ErrMessageEventStreamCacheMiss) {
 			in.fail("finish: %v", err)
@@ -760,6 +841,9 @@ func (in *c40bInst) Check() error {
 	for name, l := range in.lanes {
 		got, ok := cv[name]
 		if l.Cached && !l.Terminal {
+			if c40bBehaviourOnly && strings.HasPrefix(got, "#") {
+				continue
+			}
 			if !ok || got != l.CText {
 				return mc.Violatef("C40:cached-projection-differs-from-acknowledged-events", "lane %s: cache holds %q (present=%v), the acknowledged events give %q", name, got, ok, l.CText)
 			}
@@ -782,9 +866,11 @@ func TestVerifC40Cache(t *testing.T) {
 		Name:      "stream-cache-finish",
 		New:       func() mc.Instance { return c40bNew(r, st) },
 		MaxDepth:  ev.Pick(r, 5, 7),
-		MaxStates: ev.Pick(r, int64(300000), int64(3000000)),
+		// environment deviations = durable proposals that fail before commit (terminal events and finish)
+		MaxDeviations: ev.Pick(r, 1, 2),
+		MaxStates:     ev.Pick(r, int64(300000), int64(3000000)),
 		Bounds: map[string]any{"lanes": []string{metadb.EventKeyDefault, c40bLaneB}, "cache_max_sessions": c40bMaxSessions,
-			"events": "open/delta/snapshot (cache-only, fresh ids), redelta (same id again), close/error (durable terminal, merges the cached snapshot), finish (payload without snapshot), reset | restore pause+resume | lose and regain slot leadership (cache loss), pressure (sessions of other messages), route table: move the stream's hash slot to slot 2 / back to slot 1 (control snapshot), this node / node 2 leads slot 2 (no appends while another node is the authority)",
+			"events": "open/delta/snapshot (cache-only, fresh ids), redelta (same id again), close/error/cancel (durable terminal, merges the cached snapshot), finish (payload without snapshot), ENVIRONMENT: every durable proposal (each terminal event, each finish flush) may fail before commit with a deadline error - nothing applied, error returned (a deviation), reset | restore pause+resume | lose and regain slot leadership (cache loss), pressure (sessions of other messages), route table: move the stream's hash slot to slot 2 / back to slot 1 (control snapshot), this node / node 2 leads slot 2 (no appends while another node is the authority)",
 			"node":   "hand-assembled Node: real router (2 slots, 2 hash slots, this node leads slot 1, node 2 leads slot 2), real stream cache, no finish coalescer, proposer = real slot state machine on a real metadb.DB"},
 		Note: "merging on the durable lanes, the real cache content read through messageEventStreamCache.states and the model of acknowledged events; event ids are fresh per event and left out of the canonical state (renaming symmetry)",
 	})
@@ -808,11 +894,17 @@ func TestVerifC40Cache(t *testing.T) {
 	g("hash-slot-moved-between-locally-led-slots", st.localToLocal.Load(), 1)
 	g("session-pressure-refused-while-open", st.pressureRefused.Load(), 1)
 	g("terminal-session-evicted-under-pressure", st.pressureEvictedTerminal.Load(), 1)
+	g("terminal-proposal-failed", st.terminalProposalFailed.Load(), 100)
+	g("terminal-proposal-failed-while-two-lanes-hold-cached-text", st.terminalProposalFailedTwoLanesCached.Load(), 10)
+	g("finish-proposal-failed", st.finishProposalFailed.Load(), 10)
+	g("finish-proposal-failed-while-two-lanes-hold-cached-text", st.finishProposalFailedTwoLanesCached.Load(), 1)
+	g("cancel-applied-durably", st.cancelDurable.Load(), 10)
 	r.Count("finish_succeeded_after_loss_then_new_deltas", st.finishAfterPartialLoss.Load())
 	r.Count("terminal_event_after_cache_loss", st.closeAfterLoss.Load())
 	r.Count("cache_only_event_on_lane_terminal_in_cache", st.appendAfterTerminal.Load())
 	r.Count("own_event_refused_by_backpressure", st.ownRefused.Load())
 	r.Guard("cache-state-space-nontrivial", res.States >= 300, "states=%d", res.States)
 	r.Assume("fail-closed is demanded for a finish whose payload carries no snapshot when acknowledged cache-only events were dropped by a cache loss and nothing is cached for the message at finish time; a finish after loss + NEW cache-only events flushes only what the cache holds (the leader cannot know about the dropped prefix) - counted, not flagged")
+	r.Assume("a failed durable proposal is modelled as: the proposer returns a context.DeadlineExceeded-wrapped error and applies nothing (the commit-but-reply-lost case is a different fault and not generated); after it the model of acknowledged events is unchanged, so every later finish / delta / terminal event is judged exactly as if the failed event had never been sent")
 	r.Assume("the finish coalescer (time window) is not part of the assembled node; finish proposals go through appendMessageEventFinishPreparedDirect")
 }
